@@ -10,6 +10,7 @@ git checkout -q -- . ; git clean -fdq -- rodbus integration ffi >/dev/null 2>&1
 install_demo() {
   case "$MODE" in
     task_tests)  F=rodbus/src/client/task.rs; sed -i '$ d' "$F" && cat "$OUT/demo$N.rs" >> "$F" && echo '}' >> "$F" ;;
+    frame_tests) F=rodbus/src/serial/frame.rs; sed -i '$ d' "$F" && cat "$OUT/demo$N.rs" >> "$F" && echo '}' >> "$F" ;;
     append_task) cat "$OUT/demo$N.rs" >> rodbus/src/client/task.rs ;;
     rodbus_tests) mkdir -p rodbus/tests && cp "$OUT/demo$N.rs" "rodbus/tests/$FILTER.rs" ;;
     lib_mod) cp "$OUT/demo$N.rs" "rodbus/src/${FILTER}.rs" && echo "#[cfg(test)] mod ${FILTER};" >> rodbus/src/lib.rs ;;
